@@ -1,12 +1,14 @@
 SPECIFICATION MCSpec
 CONSTANTS
-  MaxLeaves = 6
+  MaxLeaves = 4
   MaxUnits = 3
-  MaxAppends = 3
+  MaxAppends = 2
   MaxRemoves = 2
   Stride = 16
   FinishUnits = 3
   MaxLen = 1000
+  SampleK = 100
+  FinishLen = 0
   RemoveFanout = 0
 VIEW View
 INVARIANTS Emit
